@@ -258,6 +258,11 @@ func Closed2() []Named2 {
 		hexa = append(hexa, q(2*math.Cos(a)+0.01*float64(i), 1.5*math.Sin(a)))
 	}
 	inner := []model2d.Coord{q(0.8, 0.7), q(2.2, 0.7), q(2.2, 1.3), q(0.8, 1.4)}
+	gon24 := []model2d.Coord{}
+	for i := 0; i < 24; i++ {
+		a := 2 * math.Pi * float64(i) / 24
+		gon24 = append(gon24, q(1.5*math.Cos(a)+0.25, 1.5*math.Sin(a)-0.5))
+	}
 	return []Named2{
 		{"triangle", [][]model2d.Coord{cw(tri)}},
 		{"square", [][]model2d.Coord{cw(sq)}},
@@ -266,5 +271,7 @@ func Closed2() []Named2 {
 		{"heptagon", [][]model2d.Coord{cw(hexa)}},
 		{"with-hole", [][]model2d.Coord{cw(colin), ccw(inner)}},
 		{"two-squares", [][]model2d.Coord{cw(sq), cw([]model2d.Coord{q(3, 0), q(4, 0.1), q(4, 1), q(3, 1.2)})}},
+		// a finely sampled circle: every vertex is nearly colinear with its neighbours, the whole bends by 2 pi
+		{"gon24", [][]model2d.Coord{cw(gon24)}},
 	}
 }
